@@ -282,12 +282,10 @@ func VerifC04Step() {
 	}
 }
 
-// c04MultiArray: an array of up to three (thorough: four) symbolic strings.
+// c04MultiArray: an array of up to three symbolic strings (both tiers: four did not finish in 12 minutes
+// in the thorough tier, whose other slices are wider).
 func c04MultiArray() []interface{} {
 	max := 3
-	if verif.Tier() > 0 {
-		max = 4
-	}
 	n := verif.Choose("multi.len", max+1)
 	arr := make([]interface{}, 0, n)
 	for i := 0; i < n; i++ {
